@@ -246,6 +246,20 @@ def build_case(model, fns):
         decl += " gibt %s zurück,\n" % ("nichts" if ret == "N" else TYPES[ret][2])
         decl += 'ist in "ext.c" definiert\nUnd kann so benutzt werden:\n\t"%s %s"\n\n' % (name, " ".join("<%s>" % n for n in pnames))
         ddp_decl += decl
+        if mode == "wrapper":
+            # a DDP function takes the value (its own copy) and hands it to the C function as Referenz; its caller passes a
+            # local variable and a copy of it: whatever the C function does stays inside the wrapper's copy
+            (pn, code, ref), = params
+            art = {"Z": "Die", "K": "Die", "B": "Der", "W": "Der", "C": "Der", "T": "Der", "S:Punkt": "Der", "V": "Die"}.get(code, "Die")
+            ind = lambda t: "".join("\t" + l + "\n" for l in t.rstrip("\n").split("\n"))
+            ddp_decl += ('Die Funktion huelle_%s mit dem Parameter w vom Typ %s, gibt nichts zurück, macht:\n\t%s w.\nUnd kann so benutzt werden:\n\t"huelle_%s <w>"\n\n'
+                         % (name, TYPES[code][0], name, name))
+            ddp_decl += ('Die Funktion pruefe_%s gibt nichts zurück, macht:\n\t%s %s lokal ist %s.\n\thuelle_%s lokal.\n%s\t%s %s zweite ist lokal.\n\thuelle_%s zweite.\n%s%sUnd kann so benutzt werden:\n\t"pruefe_%s"\n\n'
+                         % (name, art, TYPES[code][0], TYPES[code][3], name, ind(ddp_print(code, "lokal")), art, TYPES[code][0], name,
+                            ind(ddp_print(code, "zweite")), ind(ddp_print(code, "lokal")), name))
+            ddp_main += "pruefe_%s.\n" % name
+            exp += line + "\n" + DDP_UNCHANGED[code] + "\n" + line + "\n" + DDP_UNCHANGED[code] + "\n" + DDP_UNCHANGED[code] + "\n"
+            continue
         # the call: every argument is a variable, printed afterwards
         body = ""
         args_src = []
@@ -321,6 +335,9 @@ def check(res, tier):
             sysfns.append(("ext_fn%d" % idx, [("p0", code, True)], "N", [0]))
             idx += 1
             sysfns.append(("ext_fn%d" % idx, [("p0", "Z", False)], code, [0]))
+            if code not in PRIM:
+                idx += 1
+                sysfns.append(("ext_fn%d" % idx, [("p0", code, True)], "N", [0], "wrapper"))
             # the same variable behind two Referenz parameters: both pointers are the caller's storage
             idx += 1
             sysfns.append(("ext_fn%d" % idx, [("p0", code, True), ("p1", code, True)], "N", [0, 0], "same-variable"))
